@@ -113,7 +113,7 @@ def handle (toks : List String) : String :=
   | ["substr", kind, start, len, hays] =>
     match parseInt start, parseLen len, parseRows hays with
     | some start, some len, some hays =>
-      let check := kind = "s"
+      let check := kind.startsWith "s"
       let rs := hays.map (fun h => h.map (fun s => byteSubstring check (encode s) start len))
       if rs.any (fun r => r == some .err) then "ERR:compute" else
       let out := rs.map (fun r => match r with | some (.ok b) => some b | _ => none)
